@@ -120,6 +120,8 @@ def run(chk, tier):
         g = progen.ProgGen(((chk.seed + 23) % 1000003) * 100003 + i, emph=("store",))
         g.feat |= {"arr", "rec", "fun", "un"}
         wide.append(g.program("ws%d" % i))
+    # ... and programs with collect forms over generators (inlining of generator functions into the gathering loop)
+    wide += progen.generator_collect_family((chk.seed + 29) % 1000003, 10 if tier == "quick" else 150)
     # ... and programs whose functions compute an expression on a path that may not run and again after the join
     for i in range(nwide // 6):
         g = progen.ProgGen(((chk.seed + 27) % 1000003) * 100003 + i, emph=("cse", "call"), size=6)
